@@ -1,7 +1,7 @@
 (** C14 — Generated dictionary files are the exact image of the trained model (PARTIAL). *)
 From Coq Require Import QArith Qabs ZArith Reals List.
 From Flocq Require Import Core IEEE754.BinarySingleNaN.
-From Vib Require Import Proofs.TrainProofs Model.Float Proofs.FloatProofs Model.Base Model.LexCsv Model.DictGen Proofs.LexCsvProofs Proofs.LexCsvLayout Proofs.DictGenProofs.
+From Vib Require Import Proofs.TrainProofs Model.Float Proofs.FloatProofs Model.Base Model.LexCsv Model.DictGen Proofs.LexCsvProofs Proofs.LexCsvLayout Proofs.DictGenProofs Model.DefText.
 Import ListNotations.
 
 (** cost w = trunc(-w x scale): a higher model score gives a lower (or equal) cost *)
@@ -72,6 +72,18 @@ Theorem c14_unk_rows : forall sc rows sets txt,
   parse_lex_csv txt = Ok (map (emitted_entry sc) (combine rows sets)) /\ length (combine rows sets) = length rows.
 Proof. exact unk_roundtrip. Qed.
 
+(** matrix.def of the same writer model: whenever the dimensions fit 16 bits and every merged matrix entry lies inside
+    them, the emitted text is accepted by the matrix.def reader (Model/DefText.v, the model compared with the real reader
+    in C10) and yields the matrix whose cells are the scaled costs [f64_cost scale weight] of the merged entries (all other
+    cells 0) -- header, one line per entry in (right id, left id) order *)
+Theorem c14_written_matrix : forall sc m,
+  (fst (mg_dims m) <= 65535)%N -> (snd (mg_dims m) <= 65535)%N ->
+  Forall (fun e => (fst (fst e) < fst (mg_dims m))%N /\ (snd (fst e) < snd (mg_dims m))%N) (mg_matrix m) ->
+  parse_matrix_text (gen_matrix sc m) =
+  Ok (apply_entries sc (fold_right insert_rl [] (mg_matrix m))
+        (repeat (repeat 0%Z (N.to_nat (snd (mg_dims m)))) (N.to_nat (fst (mg_dims m))))).
+Proof. exact matrix_roundtrip. Qed.
+
 Example c14_f64_example :
   let ws := map f64_of_bits [4612811918334230528; 13826050856027422720; 0]%Z in   (* 2.5, -0.5, 0.0 *)
   map (f64_cost (f64_scale ws)) ws = [-32767; 6553; 0]%Z.
@@ -90,3 +102,4 @@ Print Assumptions c14_written_lexicon.
 Print Assumptions c14_user_rows.
 Print Assumptions c14_user_params_meaning.
 Print Assumptions c14_unk_rows.
+Print Assumptions c14_written_matrix.
